@@ -218,6 +218,20 @@ def check_method(ctx, F, ty, meth, fn, npath, lpath, lterm_pred, tag):
 
 
 def check_config(ctx, F, tag, cfg):
+    # (borrowed, A3) "iterators positioned by select_iter, predecessor or successor": the positioning calls take any argument, so
+    # their own arithmetic on it is bounded (C09.R1 restricted to the positioning entry points and the iterators' nth / nth_back)
+    from core import Relabel
+    if not isinstance(ctx, Relabel) and cfg in ("native", "portable"):
+        pos = lambda k: any(x in k.split("|")[0] for x in ("PredSucc", "::select_iter", "::select_zero_iter", "::nth", "Iter"))
+        c09.check_raw_values(Relabel(ctx, {"C09.R1.raw-value-bounded": ("C10.R10.positioning-argument-bounded", pos)}), F, tag)
+    import c08
+    if not isinstance(ctx, Relabel) and cfg in ("native", "portable"):
+        # (borrowed) the unchecked and bounds-checked word reads inside the iterators' own methods stay inside the vector: the
+        # contracts of the unsafe reads in next / next_back / nth are discharged (C08.R1 restricted to the iterator types) -- a scan
+        # that starts one word too far yields a wrong item or a panic before it is a memory-safety problem
+        rl = Relabel(ctx, {"C08.R1.unsafe-site-discharged": ("C10.R11.iterator-reads-inside-the-vector", lambda k: "Iter" in k.split("|")[0])})
+        c08.check_width_fields(rl, F, tag)
+        c08.ledger(rl, F, tag)
     its = iterator_methods(F)
     exact = [i for i in F.impls_of("std::iter::ExactSizeIterator") if not i["derived"]]
     ctx.count("exact-size-iterators" + tag, len(exact))
